@@ -1917,6 +1917,10 @@ func checkWidthDict(w *World, r *Report) {
 				for _, k := range sliceElemKinds(mu.Value) {
 					n++
 					key := r.MkKey("widthdict", fnName(fn), op)
+					if why := notTheParameter(mu.Value, fn); why != "" {
+						r.Fail("widthdict", key, w.Pos(mu.Pos()), op+" is not stored as passed in: "+why+"; the charstrings were encoded against the exact value that selectWidths returned, so any change here shifts every non-default width", nil)
+						continue
+					}
 					if k == "int<-float" || k == "int" {
 						r.Fail("widthdict", key, w.Pos(mu.Pos()), op+" is stored as "+k+": a fractional width parameter is cut off in the DICT while the charstrings were encoded against the exact value", nil)
 					} else {
@@ -1949,4 +1953,54 @@ func isT2opSlice(info *types.Info, e ast.Expr) bool {
 	}
 	sl, ok := t.Underlying().(*types.Slice)
 	return ok && strings.HasSuffix(sl.Elem().String(), "cff.t2op")
+}
+
+// notTheParameter: the single element of the []interface{} literal is
+// dictNumber(p) / p itself for a float64 parameter p of fn, with no
+// arithmetic in between.
+func notTheParameter(v ssa.Value, fn *ssa.Function) string {
+	sl, ok := v.(*ssa.Slice)
+	if !ok {
+		return ""
+	}
+	al, ok := sl.X.(*ssa.Alloc)
+	if !ok || al.Referrers() == nil {
+		return ""
+	}
+	for _, ref := range *al.Referrers() {
+		ia, ok := ref.(*ssa.IndexAddr)
+		if !ok || ia.Referrers() == nil {
+			continue
+		}
+		for _, r2 := range *ia.Referrers() {
+			st, ok := r2.(*ssa.Store)
+			if !ok {
+				continue
+			}
+			val := st.Val
+			for {
+				switch x := val.(type) {
+				case *ssa.MakeInterface:
+					val = x.X
+					continue
+				case *ssa.Call:
+					if c := x.Call.StaticCallee(); c != nil && c.Name() == "dictNumber" && len(x.Call.Args) == 1 {
+						val = x.Call.Args[0]
+						continue
+					}
+				}
+				break
+			}
+			if _, isParam := val.(*ssa.Parameter); isParam {
+				return ""
+			}
+			if c, ok := val.(*ssa.Convert); ok {
+				if _, isParam := c.X.(*ssa.Parameter); isParam {
+					return "" // the kind check reports lossy conversions
+				}
+			}
+			return "the stored value is " + val.String() + ", not the parameter itself"
+		}
+	}
+	return ""
 }
